@@ -246,7 +246,7 @@ func c04Image(r *ev.Run, si *ShapeImage, cols []string) {
 }
 
 func init() {
-	c04Extra = func(r *ev.Run) { zooRun(r, "C04"); c04PageSizes(r) }
+	c04Extra = func(r *ev.Run) { zooRun(r, "C04"); c04PageSizes(r); c04LeafSizes(r) }
 }
 
 // c04PageSizes: every legal page size x tables with no row (never filled / emptied again), one row and a few
@@ -349,5 +349,72 @@ func c04Judge(r *ev.Run, op, class string, id int64, got []interface{}, err erro
 	}
 	if !RowEq(got, want, true) {
 		r.Violation("C04:"+op+":values", fmt.Sprintf("%s(%d): got %s want %s", op, id, RowS(got), RowS(want)), art)
+	}
+}
+
+// c04LeafSizes: a leaf page with EVERY number of cells from 1 to 260 (400 thorough): whatever a search inside a leaf
+// does with the cell count (bisection, galloping, sentinels) meets every count, and every cell position is looked up
+func c04LeafSizes(r *ev.Run) {
+	max := 260
+	if r.Thorough() {
+		max = 400
+	}
+	for lo := 1; lo <= max; lo += 40 {
+		l, err := lite.OpenMem()
+		if err != nil {
+			r.Harness("lite: %v", err)
+			return
+		}
+		l.MustExec("PRAGMA page_size=4096")
+		hi := lo + 39
+		if hi > max {
+			hi = max
+		}
+		for n := lo; n <= hi; n++ {
+			l.MustExec(fmt.Sprintf("CREATE TABLE n%d (id INTEGER PRIMARY KEY, v); WITH RECURSIVE c(i) AS (SELECT 1 UNION ALL SELECT i+1 FROM c WHERE i<%d) INSERT INTO n%d SELECT i*10, i%%7 FROM c", n, n, n))
+		}
+		img := l.Serialize()
+		l.Close()
+		r.Validated(1)
+		h, d, _, err := vpager.OpenImage(img)
+		desc := map[string]interface{}{"family": "leaf-sizes", "page_size": 4096, "cells_per_leaf": fmt.Sprintf("%d..%d", lo, hi), "builder": "sqlite"}
+		if err != nil {
+			r.Violation("C04:open", fmt.Sprintf("database written by SQLite refused: %v", err), desc)
+			continue
+		}
+		for n := lo; n <= hi; n++ {
+			tn := fmt.Sprintf("n%d", n)
+			d.RLock()
+			tb, terr := d.Table(tn)
+			d.RUnlock()
+			if terr != nil {
+				r.Violation("C04:Table.Rowid:present", fmt.Sprintf("Table(%s): %v", tn, terr), desc)
+				continue
+			}
+			for i := 1; i <= n; i++ {
+				for _, id := range []int64{int64(i * 10), int64(i*10 - 1), int64(i*10 + 1)} {
+					ok := id%10 == 0
+					var want []interface{}
+					class := "absent"
+					if ok {
+						class = "present"
+						want = []interface{}{id, int64(i % 7)}
+					}
+					art := map[string]interface{}{"image": desc, "table": tn, "rowid": id, "present": ok}
+					r.Eval(1)
+					r.NontrivialN(1)
+					r.Trans(2)
+					row, err := h.SelectRowid(tn, id, "rowid", "v")
+					c04Judge(r, "SelectRowid", class, id, CopyRowOrNil(row), err, want, ok, art)
+					d.RLock()
+					rec, err := tb.Rowid(id)
+					d.RUnlock()
+					if err != nil || (rec != nil) != ok {
+						r.Violation("C04:Table.Rowid:"+class, fmt.Sprintf("Table.Rowid(%d) on %s (a leaf of %d cells): record=%v err=%v, row present=%v", id, tn, n, rec != nil, err, ok), art)
+					}
+				}
+			}
+		}
+		h.Close()
 	}
 }
